@@ -20,6 +20,10 @@ inductive Kind where
   | ptrPtrOut                            -- `T **a +intent(out)+dimension(..)` (Fortran pointer)
   | resultPointer | resultAlloc          -- `T *f() +dimension(..)` with deref(pointer) / deref(allocatable)
   | charArrayIn                          -- `char **names +intent(in)`
+  | charResultAlloc                      -- `const char *f()` as `character(len=:), allocatable`
+  | stringResultAlloc                    -- `const std::string &f()` / `*f()`, allocatable
+  | stringValResultAlloc                 -- `std::string f()` (by value: a heap copy owned by the capsule), allocatable
+  | vecStrIn | vecStrOut | vecStrInout   -- `std::vector<std::string> &` from / into `character(len=L) :: a(n)`
   deriving Repr, DecidableEq
 
 /-- the eight statements that describe a heap `std::vector` in the context struct -/
@@ -42,6 +46,7 @@ def Kind.fspec : Kind → FSpec
   | .ptrPtrOut => ⟨false, [], [.cfPointerCtx 5 0]⟩
   | .resultPointer => ⟨false, [], [.cfPointerRes 7 8]⟩
   | .resultAlloc => ⟨false, [], [.allocShape 0, .copyArrayF 5 0 0]⟩
+  | .charResultAlloc | .stringResultAlloc | .stringValResultAlloc => ⟨false, [], [.allocCharCtx 5 0, .copyStringF 5 0 5]⟩
   | _ => ⟨false, [], []⟩
 
 /-- documented C-side block for the bufferify (`cfi = false`) and the CFI (`cfi = true`) function -/
@@ -73,6 +78,13 @@ def Kind.cspec : Kind → Bool → CSpec
   | .ptrPtrOut, false => ⟨[6], 3, false, [.declPtr 6], ctxOfPointer⟩
   | .resultPointer, false | .resultAlloc, false => ⟨[6], 0, false, [], ctxOfPointer⟩
   | .charArrayIn, false => ⟨[2, 5, 3], 2, false, [.strArrayAlloc 6 1 4 2], [.strArrayFree 6 4]⟩
+  | .charResultAlloc, false => ⟨[6], 0, false, [],
+      [.ctxCxxPtr 5, .ctxIdtor 5, .ctxCcharp 5 6, .ctxType 5, .ctxElemLenStr 5 6 6, .ctxSize1 5, .ctxRank0 5]⟩
+  | .stringResultAlloc, false => ⟨[6], 0, false, [], [.strToArray 5 6]⟩
+  | .stringValResultAlloc, false => ⟨[6], 2, false, [.newString 6], [.strToArray 5 6]⟩
+  | .vecStrIn, false => ⟨[1, 5, 3], 1, false, [.vecStrIn 6 1 4 2], []⟩
+  | .vecStrOut, false => ⟨[1, 5, 3], 1, false, [.vecStrDecl 6], [.vecStrOut 1 4 2 6]⟩
+  | .vecStrInout, false => ⟨[1, 5, 3], 1, false, [.vecStrIn 6 1 4 2], [.vecStrOut 1 4 2 6]⟩
   | _, _ => ⟨[], 0, false, [], []⟩
 
 
@@ -110,6 +122,14 @@ def Kind.cpaths : Kind → Bool → List (List Nat)
   | .resultPointer, false => [[1, 10, 31, 43, 50]]
   | .resultAlloc, false => [[1, 10, 31, 43, 50]]
   | .charArrayIn, false => [[1, 12, 33, 40, 50]]
+  | .charResultAlloc, false => [[1, 12, 31, 43, 50, 60]]
+  | .stringResultAlloc, false => [[1, 13, 31, 43, 50, 60], [1, 13, 32, 43, 50, 60]]
+  | .stringValResultAlloc, false => [[1, 13, 30, 43, 50, 60]]
+  | .vecStrIn, false => [[1, 14, 32, 40, 50, 13]]
+  | .vecStrOut, false => [[1, 14, 32, 41, 50, 13]]
+  | .vecStrInout, false => [[1, 14, 32, 42, 50, 13]]
+  | .charResultAlloc, true | .stringResultAlloc, true | .stringValResultAlloc, true
+  | .vecStrIn, true | .vecStrOut, true | .vecStrInout, true => []
   | .nativeOutAlloc, true | .vectorIn, true | .vectorOut, true | .vectorOutAlloc, true | .vectorInout, true
   | .vectorInoutAlloc, true | .vectorResult, true | .vectorResultAlloc, true | .ptrPtrOut, true
   | .resultPointer, true | .resultAlloc, true | .charArrayIn, true => []
@@ -144,6 +164,11 @@ def Kind.fpaths : Kind → List (List Nat)
   | .resultPointer => [[2, 10, 31, 43, 50, 61]]
   | .resultAlloc => [[2, 10, 31, 43, 50, 60]]
   | .charArrayIn => [[2, 12, 33, 40, 50]]
+  | .charResultAlloc => [[2, 12, 31, 43, 50, 60]]
+  | .stringResultAlloc => [[2, 13, 31, 43, 50, 60], [2, 13, 32, 43, 50, 60]]
+  | .stringValResultAlloc => [[2, 13, 30, 43, 50, 60]]
+  | .vecStrIn => [[2, 14, 32, 40, 50, 13]]
+  | .vecStrOut | .vecStrInout => []
   | .native => [[2, 10, 30, 40], [2, 10, 31, 40], [2, 10, 31, 41], [2, 10, 31, 42], [2, 10, 32, 40], [2, 10, 32, 41],
                 [2, 10, 32, 42], [2, 10, 30, 40, 50], [2, 10, 31, 40, 50], [2, 10, 31, 41, 50], [2, 10, 31, 42, 50]]
 
@@ -151,7 +176,8 @@ def allKinds : List Kind :=
   [.boolIn, .boolOut, .boolInout, .charIn, .charOut, .charInout, .stringIn, .stringOut, .stringInout,
    .charResult, .stringResult, .charScalarResult, .native,
    .nativeOutAlloc, .vectorIn, .vectorOut, .vectorOutAlloc, .vectorInout, .vectorInoutAlloc, .vectorResult,
-   .vectorResultAlloc, .ptrPtrOut, .resultPointer, .resultAlloc, .charArrayIn]
+   .vectorResultAlloc, .ptrPtrOut, .resultPointer, .resultAlloc, .charArrayIn,
+   .charResultAlloc, .stringResultAlloc, .stringValResultAlloc, .vecStrIn, .vecStrOut, .vecStrInout]
 
 /-- one kind is an instance of its documented shape in the table of language `cxx` -/
 def kindOK (cxx : Bool) (k : Kind) : Bool :=
@@ -180,11 +206,16 @@ theorem lenTrim_full (t : Buf) : lenTrim t t.length = .ok (rtrim t).length := by
   have hl := lenTrim_eq_rtrim t t.length (Nat.le_refl _)
   rwa [List.take_length] at hl
 
+/-- definitional forms of the bind laws (used by `dsimp` passes inside `simp`, which also reduce the
+    structure projections of the interpreter state) -/
+theorem ok_bind_rfl {α β : Type} (a : α) (f : α → Res β) : (Res.ok a).bind f = f a := rfl
+theorem oob_bind_rfl {α β : Type} (f : α → Res β) : (Res.oob : Res α).bind f = .oob := rfl
+
 /-- unfolding set for the interpreter on concrete op lists -/
 macro "run_simp" "[" ls:Lean.Parser.Tactic.simpLemma,* "]" : tactic =>
   `(tactic| simp [runArg, runArgWith, Kind.fspec, Kind.cspec, run, step, execOp, fInit, boundary, bindAll, bindArg, St.get,
       St.set, St.resolve, assocGet, assocSet, CSpec.storage, CSpec.callVar, Res.bind, St.buf, St.nat, St.int,
-      liftBuf, lenTrim_full, $ls,*])
+      liftBuf, lenTrim_full, ok_bind_rfl, oob_bind_rfl, $ls,*])
 
 /-! ### logical <-> bool -/
 
@@ -266,16 +297,14 @@ theorem string_out_buf (v : Buf) (s : List Nat) (hs : s.length < 2147483648) :
       = .ok ⟨some (.str []), .buf (fassign v.length s), 0⟩ := by
   have h := strCopy_counted v [] (s ++ [NUL]) s.length (by simp)
   simp only [List.append_nil, List.take_left'] at h
-  rw [← narrow32_of_lt _ hs] at h
-  run_simp [h]
+  run_simp [h, hs]
 
 theorem string_out_cfi (v : Buf) (s : List Nat) (hs : s.length < 2147483648) :
     runArg Kind.stringOut.fspec (Kind.stringOut.cspec true) true (.buf v) (.arg fun _ => .str s)
       = .ok ⟨some (.str []), .buf (fassign v.length s), 0⟩ := by
   have h := strCopy_counted v [] (s ++ [NUL]) s.length (by simp)
   simp only [List.append_nil, List.take_left'] at h
-  rw [← narrow32_of_lt _ hs] at h
-  run_simp [h]
+  run_simp [h, hs]
 
 /-- `std::string &` intent(inout): trimmed text in, `take L (s ++ blanks)` out -/
 theorem string_inout_buf (t : Buf) (f : List Nat → List Nat) (hs : (f (rtrim t)).length < 2147483648) :
@@ -284,8 +313,7 @@ theorem string_inout_buf (t : Buf) (f : List Nat → List Nat) (hs : (f (rtrim t
       = .ok ⟨some (.str (rtrim t)), .buf (fassign t.length (f (rtrim t))), 0⟩ := by
   have h := strCopy_counted t [] (f (rtrim t) ++ [NUL]) (f (rtrim t)).length (by simp)
   simp only [List.append_nil, List.take_left'] at h
-  rw [← narrow32_of_lt _ hs] at h
-  run_simp [rtrim_length_le, ← rtrim_prefix, h]
+  run_simp [rtrim_length_le, ← rtrim_prefix, h, hs]
 
 theorem string_inout_cfi (t : Buf) (f : List Nat → List Nat) (hs : (f (rtrim t)).length < 2147483648) :
     runArg Kind.stringInout.fspec (Kind.stringInout.cspec true) true (.buf t)
@@ -293,8 +321,7 @@ theorem string_inout_cfi (t : Buf) (f : List Nat → List Nat) (hs : (f (rtrim t
       = .ok ⟨some (.str (rtrim t)), .buf (fassign t.length (f (rtrim t))), 0⟩ := by
   have h := strCopy_counted t [] (f (rtrim t) ++ [NUL]) (f (rtrim t)).length (by simp)
   simp only [List.append_nil, List.take_left'] at h
-  rw [← narrow32_of_lt _ hs] at h
-  run_simp [rtrim_length_le, ← rtrim_prefix, h]
+  run_simp [rtrim_length_le, ← rtrim_prefix, h, hs]
 
 /-- `char *` intent(out) (`c_char_*_out_buf`): the library writes a C string `str` into the
     caller's own `L` bytes; afterwards the variable holds `str` blank padded.  The documented
@@ -365,9 +392,8 @@ theorem string_result_buf (v : Buf) (s : List Nat) (hs : s.length < 2147483648) 
   cases s with
   | nil => cases cfi <;> run_simp [hn, fassign]
   | cons a s =>
-    rw [← narrow32_of_lt _ hs] at h
-    simp only [List.cons_append] at h
-    cases cfi <;> run_simp [h]
+    simp at h hs
+    cases cfi <;> run_simp [h, hs]
 
 /-- `char` result: the character, then blanks (`L ≥ 1`) -/
 theorem char_scalar_result_buf (v : Buf) (c : Nat) (hL : 0 < v.length) (cfi : Bool) :
@@ -438,7 +464,8 @@ theorem vector_in_buf (a : List Int) :
 /-- the context struct after the C wrapper described the vector `l` -/
 def ctxVec (l : List Int) : Ctx :=
   { owner := some l, ownerPtr := false, idtor := true, base := if l.isEmpty then none else some l, addr := 0,
-    typ := true, elemLen := true, size := l.length, rank := 1, shape := [l.length] }
+    typ := true, elemLen := true, size := l.length, rank := 1, shape := [l.length], ccharp := none, elemLenV := 0,
+    ownerStr := false }
 
 /-- `std::vector<T> &` intent(out) into a caller array of any extent (shorter, equal, longer, zero):
     the first `min(size(a), l.size())` elements are the vector's, the rest of the caller's array is
@@ -562,6 +589,76 @@ theorem char_array_in (slices : List Buf) (len : Nat) (hl : ∀ s ∈ slices, s.
 
 example : ∀ s ∈ [[97, 32], [32, 98]], s.length = 2 := by decide
 example : prod [2, 3] ≤ [1, 2, 3, 4, 5, 6, 7].length := by decide
+
+/-! ## 2c. allocatable character results and std::vector<std::string> (composed with C10) -/
+
+/-- `const char *f()` as `character(len=:), allocatable`: the value is the C string, its length is
+    `strlen` (C10 `allocatable_char_result`); nothing is leaked -/
+theorem char_result_allocatable (str post : Buf) (h0 : ∀ c ∈ str, c ≠ NUL) (r0 : Val) :
+    runArg Kind.charResultAlloc.fspec (Kind.charResultAlloc.cspec false) false r0 (.result (.buf (str ++ NUL :: post)))
+      = .ok ⟨none, .buf str, 0⟩ := by
+  have h := allocatable_char_result str post h0
+  simp only [charResultCtx, strlen_app str post h0, Res.map_ok, Res.ok_bind, allocatableResult] at h
+  run_simp [St.ctx, Ctx.empty, charResultCtx, strlen_app str post h0, h]
+
+/-- a NULL result gives a zero-length value -/
+theorem char_result_allocatable_null (r0 : Val) :
+    runArg Kind.charResultAlloc.fspec (Kind.charResultAlloc.cspec false) false r0 (.result .null)
+      = .ok ⟨none, .buf [], 0⟩ := by
+  run_simp [St.ctx, Ctx.empty, copyString]
+
+/-- `const std::string &f()` / `*f()`, allocatable: the value is the string (`_partial`: strings
+    without an embedded NUL, as C10 `allocatable_string_result_partial`; with one the copy stops there) -/
+theorem string_result_allocatable_partial (s : List Nat) (h0 : ∀ c ∈ s, c ≠ NUL) (r0 : Val) :
+    runArg Kind.stringResultAlloc.fspec (Kind.stringResultAlloc.cspec false) false r0 (.result (.str s))
+      = .ok ⟨none, .buf s, 0⟩ := by
+  have h := allocatable_string_result_partial s h0
+  simp only [allocatableResult] at h
+  run_simp [St.ctx, Ctx.empty, h]
+
+/-- `std::string f()` by value: the wrapper keeps a heap copy in the capsule, ShroudCopyStringAndFree
+    copies it out and releases it -/
+theorem string_val_result_allocatable_partial (s : List Nat) (h0 : ∀ c ∈ s, c ≠ NUL) (r0 : Val) :
+    runArg Kind.stringValResultAlloc.fspec (Kind.stringValResultAlloc.cspec false) false r0 (.result (.str s))
+      = .ok ⟨none, .buf s, 0⟩ := by
+  have h := allocatable_string_result_partial s h0
+  simp only [allocatableResult] at h
+  run_simp [St.ctx, Ctx.empty, h]
+
+/-- `const std::vector<std::string> &` from `character(len=L) :: a(n)`: element `i` of the vector is
+    the text of element `i` without trailing blanks (C10 `vecStringIn_spec`) -/
+theorem vector_string_in (slices : List Buf) (len : Nat) (hl : ∀ s ∈ slices, s.length = len) :
+    runArg Kind.vecStrIn.fspec (Kind.vecStrIn.cspec false) true (.carr slices.length len slices.flatten) (.arg id)
+      = .ok ⟨some (.vstr (slices.map rtrim)), .carr slices.length len slices.flatten, 0⟩ := by
+  have h := vecStringIn_spec slices len [] hl
+  rw [List.append_nil] at h
+  run_simp [h]
+
+/-- the C wrapper of `std::vector<std::string> & +intent(out)` alone: the first `min` elements of the
+    caller's array become the texts truncated / blank padded to `len` (C10 `vecStringOut_spec`) -/
+theorem vector_string_out_c_wrapper (slices : List Buf) (len : Nat) (vs : List (List Nat))
+    (hl : ∀ s ∈ slices, s.length = len) (h32 : ∀ v ∈ vs, v.length < 2147483648) :
+    runArg ⟨false, [], []⟩ (Kind.vecStrOut.cspec false) true (.carr slices.length len slices.flatten) (.arg fun _ => .vstr vs)
+      = .ok ⟨some (.vstr []), .carr slices.length len (mergeOut len slices vs).flatten, 0⟩ := by
+  have h := vecStringOut_spec slices len [] vs hl h32
+  simp only [List.append_nil] at h
+  run_simp [h]
+
+/-- ... but the Fortran block the emitter finds for it is `f_vector_out` (there is no string
+    specialisation on the Fortran side), whose `copy_array` reads a context struct that the C wrapper
+    never receives: for every input the composed call is undefined.  (Upstream disables the two
+    `std::vector<std::string>` out / inout functions of its own test library.) -/
+theorem vector_string_out_fortran_undefined (slices : List Buf) (len : Nat) (vs : List (List Nat))
+    (hl : ∀ s ∈ slices, s.length = len) (h32 : ∀ v ∈ vs, v.length < 2147483648) :
+    (∀ cxx, fAt cxx [2, 14, 32, 41, 13] = ⟨false, [], [.copyArrayF 5 0 0]⟩ ∧
+            fAt cxx [2, 14, 32, 42, 13] = ⟨false, [], [.copyArrayF 5 0 0]⟩) ∧
+    runArg ⟨false, [], [.copyArrayF 5 0 0]⟩ (Kind.vecStrOut.cspec false) true
+        (.carr slices.length len slices.flatten) (.arg fun _ => .vstr vs) = .oob := by
+  constructor
+  · intro cxx; cases cxx <;> decide +kernel
+  · have h := vecStringOut_spec slices len [] vs hl h32
+    simp only [List.append_nil] at h
+    run_simp [h, St.ctx]
 
 /-! ## 3. configuration independence (`_partial`: the kinds above; debug is C16) -/
 
